@@ -79,6 +79,36 @@ def worker_may_raise(st):
     return stmt_may_raise(st)
 
 
+def _uncounts_dropped_tasks(fi, aug):
+    """`self.__nb_pending_task -= N` where N is a local that starts at 0 and is stepped by one only for an item taken off the queue
+    (`x = self._queue.get_nowait()` / `.get(...)`) that an identity test told from the stop marker (`x is not self._done_event`)"""
+    if not isinstance(aug.value, ast.Name):
+        return False
+    nm = aug.value.id
+    inits = [st for st in ast.walk(fi.node) if isinstance(st, ast.Assign) and any(isinstance(t, ast.Name) and t.id == nm for t in st.targets)]
+    steps = [st for st in ast.walk(fi.node) if isinstance(st, ast.AugAssign) and isinstance(st.target, ast.Name) and st.target.id == nm]
+    if len(inits) != 1 or not (isinstance(inits[0].value, ast.Constant) and inits[0].value.value == 0) or not steps:
+        return False
+    taken = set()
+    for st in ast.walk(fi.node):
+        if isinstance(st, ast.Assign) and len(st.targets) == 1 and isinstance(st.targets[0], ast.Name) and isinstance(st.value, ast.Call) and \
+                dump(st.value.func) in ("self._queue.get_nowait", "self._queue.get"):
+            taken.add(st.targets[0].id)
+    for stp in steps:
+        if not (isinstance(stp.op, ast.Add) and isinstance(stp.value, ast.Constant) and stp.value.value == 1):
+            return False
+        guard = None
+        for iff in ast.walk(fi.node):
+            if isinstance(iff, ast.If) and any(x is stp for b in iff.body for x in ast.walk(b)):
+                t = iff.test
+                if isinstance(t, ast.Compare) and len(t.ops) == 1 and isinstance(t.ops[0], ast.IsNot) and isinstance(t.left, ast.Name) and \
+                        t.left.id in taken and dump(t.comparators[0]) == "self._done_event":
+                    guard = iff
+        if guard is None:
+            return False
+    return True
+
+
 def check(ck):
     prog = ck.prog
     ci = prog.cls(TP, "ThreadPool")
@@ -426,6 +456,10 @@ def check(ck):
                 if isinstance(n.ast.op, ast.Sub):
                     tries = [t for t in ast.walk(fi.node) if isinstance(t, ast.Try) and any(sub is n.ast for st_ in t.finalbody for sub in ast.walk(st_))]
                     okk = any(isinstance(c, ast.Call) and call_name(c) == "execute" for t in tries for st_ in t.body for c in ast.walk(st_))
+                    if not okk and _uncounts_dropped_tasks(fi, n.ast):
+                        ck.ok("C10.7b", "%s: `%s`" % (q.fn(fi), q.stmt_text(n)), "un-counts exactly the real tasks taken off the queue (stop markers "
+                              "excluded by identity): they will never be executed", q.loc(fi, n))
+                        continue
                     ck.require(okk, "C10.7b", "%s: `%s`" % (q.fn(fi), q.stmt_text(n)), "one decrement per executed task (finally of the try around execute)",
                                "the pending-task counter is decremented for something that was not an executed task (e.g. drained items, "
                                "which include uncounted stop sentinels): the counter can become negative and the pool stops growing",
@@ -438,6 +472,19 @@ def check(ck):
                     ck.require(bool(puts_) or in_start, "C10.7b", "%s: `%s`" % (q.fn(fi), q.stmt_text(n)), "one increment per queued task",
                                "the pending-task counter is incremented without a task having been queued", q.loc(fi, n))
             elif n.kind == "stmt" and isinstance(n.ast, ast.Assign) and any(dump(t) == "self.__nb_pending_task" for t in n.ast.targets):
+                exprs_ = [n.ast.value]
+                for x_ in ast.walk(n.ast.value):
+                    if isinstance(x_, ast.Name):
+                        exprs_ += [st_.value for st_ in ast.walk(fi.node) if isinstance(st_, ast.Assign) and
+                                   any(isinstance(t_, ast.Name) and t_.id == x_.id for t_ in st_.targets)]
+                rebinds_ = sum(1 for x_ in ast.walk(n.ast.value) if isinstance(x_, ast.Name) for st_ in ast.walk(fi.node)
+                               if isinstance(st_, ast.Assign) and any(isinstance(t_, ast.Name) and t_.id == x_.id for t_ in st_.targets))
+                names_ = sum(1 for x_ in ast.walk(n.ast.value) if isinstance(x_, ast.Name))
+                if fi.name == "start" and any(isinstance(x_, ast.Call) and call_name(x_) == "qsize" for e_ in exprs_ for x_ in ast.walk(e_)) and \
+                        not any(isinstance(x_, ast.Call) and call_name(x_) in ("min", "max") for e_ in exprs_ for x_ in ast.walk(e_)) and rebinds_ <= names_:
+                    # start() recomputing the count from the queue (a stopped pool executes nothing): whether the sum is exact is arithmetic
+                    # over queue contents that the pairing rule cannot follow
+                    raise AnalysisError("ThreadPool.start recomputes the pending-task counter from the queue size (`%s`): not modelled" % q.stmt_text(n)[:60])
                 ck.bad("C10.7b", "%s: `%s`" % (q.fn(fi), q.stmt_text(n)), "the pending-task counter is overwritten instead of counted "
                        "(+1 per queued task, -1 per executed task)", q.loc(fi, n))
     # counters start at zero and move by exactly one: a worker / an executing task / a waiting task is one unit. (The thread and
@@ -471,6 +518,8 @@ def check(ck):
                     amount = None
                 ctr = st.target.attr
                 exact = amount == 1 and not isinstance(amount, bool)
+                if ctr == "__nb_pending_task" and isinstance(st.op, ast.Sub) and _uncounts_dropped_tasks(fi, st):
+                    continue        # (one unit per real task dropped from the queue: judged with the pairing rule above)
                 # over-counting waiting tasks only makes the pool grow earlier: tolerated; everything else must be one unit
                 tolerated = ctr == "__nb_pending_task" and isinstance(st.op, ast.Add) and isinstance(amount, int) and \
                     (amount >= 1 or (fi.name != "enqueue" and amount >= 0))
